@@ -124,21 +124,24 @@ def build(entry, rs):
         I, K = int(rs.randint(2, 5)), int(rs.randint(Rk, Rk + 3))
         shapes = [(int(rs.randint(Rk, Rk + 4)), K) for _ in range(I)]
         return (lambda s: R.random_parafac2(shapes, Rk, full=bool(it == 1), random_state=s, normalise_factors=bool(it == 2))), dict(d, shape=shapes)
+    # the SVD routine is a parameter of every SVD-initialised / projection-based algorithm; with the randomized one the seed has to reach it
+    rsvd = bool(rs.rand() < 0.35)
+    sv = {"init": "svd", "svd": "randomized_svd"} if rsvd else {"init": "random"}
     if entry == "parafac":
         o = {"normalize_factors": bool(rs.rand() < 0.3), "linesearch": bool(rs.rand() < 0.2)}
-        return (lambda s: D.parafac(X, Rk, n_iter_max=it, init="random", random_state=s, return_errors=True, **o)), dict(d, **o)
+        return (lambda s: D.parafac(X, Rk, n_iter_max=it, random_state=s, return_errors=True, **sv, **o)), dict(d, randomized_svd=rsvd, **o)
     if entry == "parafac_svd_pad":
         Rbig = max(shp) + int(rs.randint(1, 3))  # rank above a mode size: the SVD init draws the padding
         return (lambda s: D.parafac(X, Rbig, n_iter_max=0, init="svd", random_state=s)), dict(d, rank=Rbig)
     if entry == "nn_parafac":
-        return (lambda s: D.non_negative_parafac(Xp, Rk, n_iter_max=it, init="random", random_state=s, return_errors=True)), d
+        return (lambda s: D.non_negative_parafac(Xp, Rk, n_iter_max=it, random_state=s, return_errors=True, **sv)), dict(d, randomized_svd=rsvd)
     if entry == "nn_parafac_hals":
-        return (lambda s: D.non_negative_parafac_hals(Xp, Rk, n_iter_max=it, init="random", random_state=s, return_errors=True)), d
+        return (lambda s: D.non_negative_parafac_hals(Xp, Rk, n_iter_max=it, random_state=s, return_errors=True, **sv)), dict(d, randomized_svd=rsvd)
     if entry == "constrained_parafac":
         X3 = rs.standard_normal(gen.shape(rs, 3, 2, 5))
-        return (lambda s: D.constrained_parafac(X3, Rk, n_iter_max=it, init="random", random_state=s, non_negative=True, return_errors=True)), dict(d, shape=list(X3.shape))
+        return (lambda s: D.constrained_parafac(X3, Rk, n_iter_max=it, random_state=s, non_negative=True, return_errors=True, **sv)), dict(d, shape=list(X3.shape), randomized_svd=rsvd)
     if entry == "randomised_parafac":
-        return (lambda s: D.randomised_parafac(X, Rk, 10, n_iter_max=it, init="random", random_state=s, return_errors=True, max_stagnation=0)), d
+        return (lambda s: D.randomised_parafac(X, Rk, 10, n_iter_max=it, random_state=s, return_errors=True, max_stagnation=0, **sv)), dict(d, randomized_svd=rsvd)
     if entry == "tucker":
         rk = [int(rs.randint(1, min(s, 3) + 1)) for s in shp]
         return (lambda s: D.tucker(X, rk, n_iter_max=it, init="random", random_state=s, return_errors=True)), dict(d, rank=rk)
@@ -157,7 +160,8 @@ def build(entry, rs):
         r2 = int(rs.randint(1, min(3, K) + 1))
         sl = [rs.standard_normal((int(rs.randint(r2 + 1, 7)), K)) for _ in range(I)]
         if entry == "parafac2":
-            return (lambda s: D.parafac2(sl, r2, n_iter_max=it, init="random", random_state=s, return_errors=True)), dict(d, shape=[list(x.shape) for x in sl], rank=r2)
+            p2o = {"init": gen.choice(rs, ["random", "svd"]), "svd": "randomized_svd"} if rsvd else {"init": "random"}
+            return (lambda s: D.parafac2(sl, r2, n_iter_max=it + (6 if rsvd else 0), random_state=s, return_errors=True, **p2o)), dict(d, shape=[list(x.shape) for x in sl], rank=r2, randomized_svd=rsvd)
         return (lambda s: _parafac2.initialize_decomposition(sl, r2, init="random", random_state=s)), dict(d, shape=[list(x.shape) for x in sl], rank=r2)
     if entry in ("tr_als", "tr_als_sampled"):
         X3 = rs.standard_normal(gen.shape(rs, 3, 2, 4))
